@@ -156,7 +156,7 @@ fn buffer_edge_family(g: &mut G, ctx: &RunCtx) -> RunReport {
     let mut plan: ReqPlan = reqgen::gen_request(g, 0);
     // keep the head well inside one buffer
     plan.headers.retain(|(_, v, _)| v.len() < 600);
-    plan.body = BodySpec::Custom(CustomSpec { chunked: true, ops: vec![] });
+    plan.body = BodySpec::Custom(CustomSpec { chunked: true, ops: vec![], fail_at: None });
     let mut script = Script::default();
     script.acts.push(Act::Send(b"HTTP/1.1 200 OK\r\nContent-Length: 2\r\n\r\nok".to_vec()));
     script.acts.push(Act::Fin);
@@ -197,7 +197,7 @@ fn buffer_edge_family(g: &mut G, ctx: &RunCtx) -> RunReport {
             _ => WOp::Write(crate::gen::gen_bytes(n, 2, 13)),
         });
     }
-    plan.body = BodySpec::Custom(CustomSpec { chunked: true, ops });
+    plan.body = BodySpec::Custom(CustomSpec { chunked: true, ops, fail_at: None });
     g.probe("streamed-body-piece-ends-at-the-edge-of-the-write-buffer");
     let (faults, fname) = gen_write_faults(g);
     let ran = bodyx::run_origin(&script, &faults, ctx, || {
@@ -247,6 +247,19 @@ pub fn scenario(g: &mut G, ctx: &RunCtx) -> RunReport {
     if g.chance(1, 10) {
         return buffer_edge_family(g, ctx);
     }
+    // (no draw) a streamed body whose own source fails half-way (a file that cannot be read any further, a
+    // generator that gives up): the request cannot be completed - send() says so, and what is on the wire
+    // is not passed off as a complete request (no terminating chunk after half a body)
+    let mut plan = plan;
+    let mut body_fails = false;
+    if let reqgen::BodySpec::Custom(c) = &mut plan.body {
+        let total: usize = c.bytes().len();
+        if c.ops.len() >= 2 && total % 3 == 0 && total > 0 {
+            c.fail_at = Some(c.ops.len() / 2 + (total / 3) % (c.ops.len() - c.ops.len() / 2));
+            body_fails = true;
+            g.probe("streamed-body-source-fails-half-way");
+        }
+    }
     let mut script = Script::default();
     script.acts.push(Act::Send(b"HTTP/1.1 200 OK\r\nContent-Length: 2\r\n\r\nok".to_vec()));
     script.acts.push(Act::Fin);
@@ -266,6 +279,21 @@ pub fn scenario(g: &mut G, ctx: &RunCtx) -> RunReport {
         Some(Ok(res)) => {
             if ran.history.conns.len() != 1 {
                 violation("connection-count", format!("{} connections for one request (result {:?})", ran.history.conns.len(), res))
+            } else if body_fails {
+                let bytes = ran.history.conns[0].client_bytes();
+                // what the body wrote before its source failed
+                let sent_before: usize = match &plan.body {
+                    reqgen::BodySpec::Custom(c) => c.ops.iter().take(c.fail_at.unwrap_or(0)).map(|o| match o { reqgen::WOp::Write(b) | reqgen::WOp::WriteAll(b) => b.len(), reqgen::WOp::Flush => 0 }).sum(),
+                    _ => 0,
+                };
+                match (res, parse_request(&bytes)) {
+                    (Ok(()), _) => violation(format!("send-ok-although-the-body-failed:{}", plan.body_name()), "send() returned Ok although the body's own write() returned an error".to_string()),
+                    (Err(_), ReqParse::Complete(r)) if r.body.len() <= sent_before && plan.body_name() == "custom-chunked" => violation(
+                        "failed-body-passed-off-as-complete",
+                        format!("the body's source failed after {} octets, yet the peer received a complete chunked request with a {}-octet body and its terminating chunk", sent_before, r.body.len()),
+                    ),
+                    _ => Verdict::Pass,
+                }
             } else {
                 let bytes = ran.history.conns[0].client_bytes();
                 match parse_request(&bytes) {
